@@ -172,6 +172,44 @@ def tlc(module, cfg, constants=None, workers=None, timeout=900, simulate=None,
             shutil.rmtree(tmp, ignore_errors=True)
 
 
+# --------------------------------------------------------------------------- TLAPS
+
+def tlaps(ctx, module, falsify):
+    """Check specs/<module>.tla with the TLA+ proof system (tlapm).  `falsify` = (old text, new text): the same module with
+    that replacement must NOT be provable (adequacy).  Returns the number of proved obligations."""
+    tmp = tempfile.mkdtemp(prefix="vtlaps_")
+    try:
+        src = open(os.path.join(SPECS, module + ".tla")).read()
+        if falsify[0] not in src:
+            raise MachineryError("falsification text not found in %s" % module)
+        outs = {}
+        t0 = time.time()
+        for name, text in ((module, src), (module + "Bad", src.replace("MODULE " + module, "MODULE " + module + "Bad")
+                                           .replace(falsify[0], falsify[1]))):
+            with open(os.path.join(tmp, name + ".tla"), "w") as f:
+                f.write(text)
+            try:
+                p = subprocess.run(["tlapm", "--cleanfp", name + ".tla"], cwd=tmp, stdout=subprocess.PIPE,
+                                   stderr=subprocess.STDOUT, text=True, timeout=1500)
+            except (OSError, subprocess.TimeoutExpired) as ex:
+                raise MachineryError("tlapm could not be run on %s: %r" % (name, ex)) from ex
+            outs[name] = p.stdout
+        m = re.search(r"All (\d+) obligations proved", outs[module])
+        if not m:
+            raise MachineryError("%s.tla is not proved:\n%s" % (module, outs[module][-1200:]))
+        if re.search(r"All \d+ obligations proved", outs[module + "Bad"]):
+            raise MachineryError("the falsified variant of %s.tla is provable too: the proof says nothing" % module)
+        n = int(m.group(1))
+        ctx.spec_runs.append({"module": module, "label": "TLAPS proof (tlapm, SMT): %d obligations; falsified variant rejected" % n,
+                              "distinct_states": 0, "states_generated": 0, "depth": 0, "cases": 0, "ok": True,
+                              "wall_s": round(time.time() - t0, 2)})
+        ctx.extra.setdefault("tlaps", []).append({"module": module + ".tla", "obligations_proved": n,
+                                                  "falsified_variant_rejected": True})
+        return n
+    finally:
+        shutil.rmtree(tmp, ignore_errors=True)
+
+
 def tla_seq(xs):
     return "<<" + ", ".join(tla_val(x) for x in xs) + ">>"
 
